@@ -102,11 +102,39 @@ def run(ctx):
     if n < 2:
         raise AnalysisError('R6.3 found fewer than 2 guarded column stores')
 
+    # ---- R6.4 -------------------------------------------------------------------------------------------------------
+    import re
+    ctx.rule('R6.4', 'a byte<->character conversion `lines[<P>ln].c2b(<Q>col)` / b2c, and the lower bound of `lines[<P>ln][<Q>col:]`, '
+                     'converts a column on the line it belongs to: the name prefixes P and Q are equal', 70)
+    for fi in ctx.repo.all_funcs():
+        if isinstance(fi.node, ast.Lambda):
+            continue
+        for c in walk_no_nested(fi.node):
+            L = C = None
+            if isinstance(c, ast.Call) and call_name(c) in ('c2b', 'b2c') and c.args and isinstance(c.func, ast.Attribute) and \
+                    isinstance(c.func.value, ast.Subscript):
+                L, C = c.func.value.slice, c.args[0]
+            elif isinstance(c, ast.Subscript) and isinstance(c.value, ast.Subscript) and isinstance(c.slice, ast.Slice) and \
+                    norm(c.value.value) in ('lines', 'ls', 'self.root._lines', 'root._lines', 'self._lines'):
+                L, C = c.value.slice, c.slice.lower
+            if not (isinstance(L, ast.Name) and isinstance(C, ast.Name)):
+                continue
+            ml = re.match(r'^(.*?)_?ln$', L.id)
+            mc = re.match(r'^(.*?)_?col(_offset)?$', C.id)
+            if not (ml and mc):
+                continue
+            ctx.check('R6.4', ml.group(1) == mc.group(1), fi.module, fi.qualname, c,
+                      f'column `{C.id}` is converted / sliced on line `{L.id}`: it belongs to line `{mc.group(1) + ("_" if mc.group(1) and not mc.group(1).endswith("_") else "")}ln`; the '
+                      f'two lines differ exactly when the construct spans several lines, and then the byte/character mapping of the wrong line is used',
+                      c.lineno, sample=norm(c))
+
 
 # ----------------------------------------------------------------------------------------------------------------------
 
 def is_line_text(u: Units, e) -> bool:
-    """Is `e` a source line (string indexed by character)?"""
+    """Is `e` a source line / source text (string indexed by character)?"""
+    if isinstance(e, ast.Name) and e.id in u._text_vars():
+        return True
     if isinstance(e, ast.Name):
         return e.id in ('l', 'line', 'lend', 'last_line', 'first_line') or e.id.endswith('_line')
     if isinstance(e, ast.Subscript) and not isinstance(e.slice, ast.Slice):
@@ -123,6 +151,19 @@ def is_line_text(u: Units, e) -> bool:
 def check_units(ctx, fi, res):
     u = Units(fi)
     fn = fi.node
+    par = parent_map(fn)
+
+    def in_conversion_idiom(sub):
+        """`text[pos:pos + nbytes].encode()[:nbytes].decode()` -- the repo's spelled-out byte->char conversion: the character
+        window is deliberately as wide as the byte count (never too small), the byte cut happens after encode()."""
+        p1 = par.get(sub)
+        if isinstance(p1, ast.Attribute) and p1.attr == 'encode':
+            c1 = par.get(p1)
+            s2 = par.get(c1)
+            if isinstance(c1, ast.Call) and isinstance(s2, ast.Subscript) and isinstance(s2.slice, ast.Slice):
+                a2 = par.get(s2)
+                return isinstance(a2, ast.Attribute) and a2.attr == 'decode'
+        return False
 
     def bad(node, expr, need, why):
         k = f'{norm(expr, 60)} in {norm(node, 80)}'
@@ -217,7 +258,7 @@ def check_units(ctx, fi, res):
                         need(n, kw.value, name_unit(kw.arg), f'parameter `{kw.arg}` of {cal.name}()')
                 break
         # S4 indexing into a line
-        if isinstance(n, ast.Subscript) and is_line_text(u, n.value):
+        if isinstance(n, ast.Subscript) and is_line_text(u, n.value) and not in_conversion_idiom(n):
             sl = n.slice
             parts = [sl.lower, sl.upper] if isinstance(sl, ast.Slice) else [sl]
             for p_ in parts:
